@@ -2,8 +2,10 @@ from __future__ import annotations
 
 import ast
 import enum
+import io
 import re
 import sys
+import unicodedata  # (CPython loads it on the first \N{...} escape it decodes; see _FSTRING_TEXT_PIECES)
 from collections.abc import Callable
 from typing import TYPE_CHECKING, Any, ClassVar, Literal, NoReturn, TypeVar, cast
 
@@ -232,6 +234,11 @@ class Target(enum.Enum):
     DEL_TARGETS = enum.auto()
 
 
+# Compiled (and unicodedata imported) at import rather than on first use: first use happens on top of the parser's
+# recursion, where the extra frames of a compilation or an import can be the ones that no longer fit.
+_FSTRING_TEXT_PIECES = re.compile(r'\\[\s\S]|"|[^\\"]+|\\')
+
+
 class Parser:
     KEYWORDS: ClassVar[tuple[str, ...]]
     SOFT_KEYWORDS: ClassVar[tuple[str, ...]]
@@ -418,8 +425,6 @@ class Parser:
 
     def _normalize_identifiers(self, tree: ast.AST) -> None:
         """Identifiers are compared in NFKC normal form (PEP 3131); CPython stores them that way in the tree."""
-        import unicodedata
-
         for node in ast.walk(tree):
             for field in self._IDENTIFIER_FIELDS.intersection(node._fields):
                 value = getattr(node, field)
@@ -691,7 +696,7 @@ class Parser:
             return text
         # evaluate the text as the body of a plain (triple double-quoted) string literal
         body = "".join(
-            '\\"' if piece == '"' else piece for piece in re.findall(r'\\[\s\S]|"|[^\\"]+|\\', text)
+            '\\"' if piece == '"' else piece for piece in _FSTRING_TEXT_PIECES.findall(text)
         )
         if (len(text) - len(text.rstrip("\\"))) % 2:
             body += "\\"  # a lone trailing backslash (before a replacement field) stays a backslash
@@ -1093,8 +1098,6 @@ class Parser:
         verbose: bool = False,
     ) -> Any:
         """Parse a string."""
-        import io
-
         # universal newlines, as parse_file (text mode) and CPython read a source: "\r\n" and a lone "\r" end a line like "\n"
         tok_stream = generate_tokens(io.StringIO(source, newline=None).readline)
         tokenizer = Tokenizer(tok_stream, verbose=verbose)
